@@ -373,8 +373,8 @@ def spawnAndAdd (g : Graph) (s : State) (name : String) (p : Int) : State :=
 
 def nextParentless (g : Graph) (x : Proxy) : Option Int := do
   let t ← g.task? x.name
-  let d ← t.inst? x.pt
-  d.nextParentless
+  -- (`itask.tdef.next_point_parentless(start, point)`: also from a point that a reload left off-sequence)
+  (t.anyInst x.pt).nextParentless
 
 /-- `spawn_next_parentless` -/
 def spawnNextParentless (g : Graph) (s : State) (x : Proxy) : State :=
@@ -984,7 +984,9 @@ def restart (g : Graph) (s : State) : State :=
                            noSpawn := false }
       | none => { x with outs := stdOutputs, comp := finalCompletion, tdExec := 0, tdSub := 0, noSpawn := false,
                          pre := [], sui := [] }
-    { x with status := status, submitNum := sn, dbSn := dbSn, tsDirty := false,
+    -- (the proxies whose state is reset while loading - preparing -> waiting, released final ones - get a fresh
+    -- `time_updated`: their task_states row is refreshed by the next put_task_pool)
+    { x with status := status, submitNum := sn, dbSn := dbSn, tsDirty := (x.status == .preparing) || final,
              done := if keepOut then x.done.filter (fun m => x.outs.any (·.message == m)) else [],
              queued := false, runahead := !final, retryWait := false, live := false,
              upd := (x.status == .preparing) || final }
